@@ -439,6 +439,7 @@ class Gen(object):
         self.classes = []
         self.budget = 11 if small else 60
         self.nfield = 0
+        self.wit = {}
 
     def scalar_fields(self, n):
         rnd = self.rnd
@@ -487,13 +488,23 @@ class Gen(object):
                 w = rnd.choice([1, 2, 2])
                 elem["fields"].append({"name": "f%d" % self.nfield, "kind": "scalar", "w": w, "sg": rnd.random() < 0.3, "rand": rnd.random() < 0.85})
                 self.nfield += 1
+            if rnd.random() < 0.4:
+                # elements with two sub-objects of one class: paths of two steps below an element (it.p.lo, self.l[k].q.hi),
+                # the position of p / q in the element differing from the position of the field in the pair
+                pair = {"name": "K%d" % len(self.classes), "fields": [], "blocks": [], "pre_randomize": [], "post_randomize": []}
+                self.classes.append(pair)
+                for nm in ("hi", "lo"):
+                    pair["fields"].append({"name": nm, "kind": "scalar", "w": 1, "sg": False, "rand": rnd.random() < 0.85})
+                for nm in ("p", "q"):
+                    elem["fields"].append({"name": nm, "kind": "obj", "cls": pair["name"], "rand": True})
             for _ in range(rnd.choice([1, 1, 2])):
                 n = rnd.randint(2, 3)
                 is_rand = rnd.random() < 0.8
-                c["fields"].append({"name": "l%d" % self.nfield, "kind": "olist", "cls": elem["name"], "n": n, "rand": is_rand})
+                c["fields"].append({"name": "l%d" % self.nfield, "kind": "olist", "cls": elem["name"], "n": n, "rand": is_rand,
+                                    "via_sz": n >= 1 and rnd.random() < 0.4})
                 self.nfield += 1
                 if is_rand:
-                    self.budget -= n * sum(f["w"] for f in elem["fields"] if f["rand"])
+                    self.budget -= n * sum(f["w"] for _, f in leaves_of({"classes": self.classes}, elem["name"]) if f["rand"])
         if self.tree and depth < 2:
             for k in range(rnd.choice([0, 1, 1, 2]) if depth == 0 else rnd.choice([0, 0, 1])):
                 sub = self.gen_class(depth + 1)
@@ -530,7 +541,7 @@ class Gen(object):
                 continue
             self.rl_names = all_rl if c is self.classes[0] else []       # rangelists belong to the root object
             nb = rnd.choice([1, 1, 2])
-            c["blocks"] = [{"name": "c%d" % i, "stmts": [self.stmt(2, softs) for _ in range(rnd.randint(1, 3))]}
+            c["blocks"] = [{"name": "c%d" % i, "stmts": [self.guided(lambda: self.stmt(2, softs), fallback=self.wit_fallback) for _ in range(rnd.randint(1, 3))]}
                            for i in range(nb)]
             for f in c["fields"]:
                 if f["kind"] == "olist" and rnd.random() < 0.7:
@@ -651,6 +662,180 @@ class Gen(object):
             return ["soft", ["bin", rnd.choice(["Eq", "Eq", "Eq", "Lt", "Gt", "Ne"]), ["f", path], self.lit_for(f)]]
         return ["soft", self.relation(1)]
 
+    # ---- witness guidance (tree / object-list scenarios): every field declaration gets one value, the same in every instance
+    # of its class; a generated top-level statement is mostly kept only if that assignment satisfies it (plain integer
+    # reading - an approximation that only steers the generator towards satisfiable systems, it decides nothing)
+    def wit_of(self, f):
+        key = id(f)
+        if key not in self.wit:
+            if f["kind"] == "enum":
+                self.wit[key] = self.rnd.choice(self.enums[f["enum"]])
+            elif f.get("init") is not None and not f["rand"]:
+                self.wit[key] = f["init"]
+            elif not f["rand"]:
+                self.wit[key] = 0
+            elif self.hist and self.rnd.random() < 0.5:
+                # the value the field starts with: switching its rand_mode off before the first call does not hurt
+                self.wit[key] = f.get("init") or 0
+            else:
+                self.wit[key] = self.rnd.randint(*type_range(f["w"], f["sg"]))
+        return self.wit[key]
+
+    def wit_decl(self, e, elem_fs):
+        src = self.fs if e[0] == "f" else (elem_fs or [])
+        return next((f for p, f in src if list(p) == list(e[1])), None)
+
+    def wit_ws(self, e, elem_fs):
+        """(width, signed) as the expression models report them (Expr.width_of / spec_signed)"""
+        k = e[0]
+        if k in ("lit", "enumlit", "idxvar"):
+            return 32, True
+        if k == "u":
+            return e[2], False
+        if k == "s":
+            return e[2], True
+        if k in ("f", "itf"):
+            f = self.wit_decl(e, elem_fs)
+            if f is None:
+                raise KeyError(e)
+            return (32, True) if f["kind"] == "enum" else (f["w"], f["sg"])
+        if k == "part":
+            return e[2] - e[3] + 1, False
+        if k == "bit":
+            return 1, False
+        if k == "not":
+            return self.wit_ws(e[1], elem_fs)
+        if k in ("in", "notin"):
+            return 1, False
+        if k == "bin":
+            if e[1] in ("Lt", "Le", "Gt", "Ge", "Eq", "Ne"):
+                return 1, False
+            (wl, sl), (wr, sr) = self.wit_ws(e[2], elem_fs), self.wit_ws(e[3], elem_fs)
+            return max(wl, wr), sl and sr
+        raise KeyError(e)
+
+    def wit_sem(self, e, ctx, psg, idx, elem_fs):
+        """port of Rand/Expr.sem: (width, bit pattern) of e in a context of width ctx; ZeroDivisionError / KeyError = undefined"""
+        wrap = lambda w, v: v & ((1 << w) - 1)
+        to_s = lambda w, u: u - (1 << w) if u >= (1 << (w - 1)) else u
+        conv = lambda sg, w, W, u: wrap(W, to_s(w, u) if sg else u)
+        k = e[0]
+        if k in ("lit", "enumlit", "idxvar", "u", "s"):
+            v = e[1] if k in ("lit", "u", "s") else (self.enums[e[1]][e[2]] if k == "enumlit" else idx)
+            w, sg = self.wit_ws(e, elem_fs)
+            W = max(ctx, w)
+            return W, (conv(psg, w, W, wrap(w, v)) if w < W else wrap(w, v))
+        if k in ("f", "itf"):
+            f = self.wit_decl(e, elem_fs)
+            w, sg = self.wit_ws(e, elem_fs)
+            return w, wrap(w, self.wit_of(f))
+        if k in ("part", "bit"):
+            hi, lo = (e[2], e[3]) if k == "part" else (e[2], e[2])
+            w, u = self.wit_sem(e[1], -1, False, idx, elem_fs)
+            return hi - lo + 1, (u >> lo) & ((1 << (hi - lo + 1)) - 1)
+        if k == "not":
+            w, sg = self.wit_ws(e[1], elem_fs)
+            W = max(ctx, w)
+            we, a = self.wit_sem(e[1], W, sg, idx, elem_fs)
+            return W, (1 << W) - 1 - conv(sg, we, W, a)
+        if k in ("in", "notin"):
+            hit = False
+            for it in e[2]:
+                if len(it) == 1:
+                    hit = hit or self.wit_sem(["bin", "Eq", e[1], it[0]], -1, False, idx, elem_fs)[1] != 0
+                else:
+                    hit = hit or (self.wit_sem(["bin", "Ge", e[1], it[0]], -1, False, idx, elem_fs)[1] != 0 and
+                                  self.wit_sem(["bin", "Le", e[1], it[1]], -1, False, idx, elem_fs)[1] != 0)
+            return 1, int(hit if k == "in" else not hit)
+        if k == "bin":
+            op = e[1]
+            (wl_, sl), (wr_, sr) = self.wit_ws(e[2], elem_fs), self.wit_ws(e[3], elem_fs)
+            W = max(ctx, wl_, wr_)
+            sg = sl and sr
+            wl, a = self.wit_sem(e[2], W, sg, idx, elem_fs)
+            wr, b = self.wit_sem(e[3], W, sg, idx, elem_fs)
+            a, b = conv(sg, wl, W, a), conv(sg, wr, W, b)
+            if op in ("Lt", "Le", "Gt", "Ge", "Eq", "Ne"):
+                x, y = (to_s(W, a), to_s(W, b)) if sg else (a, b)
+                return 1, int({"Lt": x < y, "Le": x <= y, "Gt": x > y, "Ge": x >= y, "Eq": x == y, "Ne": x != y}[op])
+            if op in ("Div", "Mod"):
+                if b == 0:
+                    raise ZeroDivisionError()
+                if sg:
+                    x, y = to_s(W, a), to_s(W, b)
+                    q = abs(x) // abs(y) * (1 if (x >= 0) == (y >= 0) else -1)
+                    return W, wrap(W, q if op == "Div" else x - y * q)
+                return W, (a // b if op == "Div" else a % b)
+            if op in ("Sll", "Srl"):
+                return W, (0 if b >= W else (wrap(W, a << b) if op == "Sll" else a >> b))
+            return W, {"Add": wrap(W, a + b), "Sub": wrap(W, a - b), "Mul": wrap(W, a * b), "And": a & b, "Or": a | b, "Xor": a ^ b}[op]
+        raise KeyError(e)
+
+    def wit_eval(self, e, idx=None, elem_fs=None):
+        """truth value (0/1) of e as a condition under the witness; None = cannot tell"""
+        try:
+            return int(self.wit_sem(e, -1, False, idx, elem_fs)[1] != 0)
+        except ZeroDivisionError:
+            raise
+        except Exception:
+            return None
+
+    def boolish(self, e):
+        return e[0] in ("in", "notin") or (e[0] == "bin" and e[1] in ("Lt", "Le", "Gt", "Ge", "Eq", "Ne", "And", "Or")) or \
+            (e[0] == "not" and self.boolish(e[1]))
+
+    def wit_holds(self, st, idx=None, elem_fs=None):
+        """does the witness satisfy the statement? (cannot tell: counted as holding; a division by zero: as not holding)"""
+        try:
+            return self.wit_holds_(st, idx, elem_fs)
+        except ZeroDivisionError:
+            return False
+
+    def wit_holds_(self, st, idx=None, elem_fs=None):
+        k = st[0]
+        if k == "expr":
+            v = self.wit_eval(st[1], idx, elem_fs)
+            return True if v is None else bool(v)
+        if k == "unique":
+            try:
+                vals = [self.wit_of(self.wit_decl(x, elem_fs)) for x in st[1]]
+            except Exception:
+                return True
+            return len(set(vals)) == len(vals)
+        if k == "implies":
+            c = self.wit_eval(st[1], idx, elem_fs)
+            return True if c is None or not c else all(self.wit_holds_(b, idx, elem_fs) for b in st[2])
+        if k == "if":
+            for cond, body in [[st[1], st[2]]] + list(st[3]):
+                c = self.wit_eval(cond, idx, elem_fs)
+                if c is None:
+                    return True
+                if c:
+                    return all(self.wit_holds_(b, idx, elem_fs) for b in body)
+            return all(self.wit_holds_(b, idx, elem_fs) for b in (st[4] or []))
+        return True       # soft, solve_order, dist, ...
+
+    def guided(self, mk, check=None, fallback=None):
+        """mostly-satisfiable generation: retry until the witness satisfies the statement (8% are kept regardless)"""
+        if not (self.tree or self.olists) or not getattr(self, "guide", True):
+            return mk()
+        st = mk()
+        for _ in range(12):
+            if (check or self.wit_holds)(st) or self.rnd.random() < 0.06:
+                return st
+            st = mk()
+        if (check or self.wit_holds)(st) or fallback is None:
+            return st
+        return fallback()
+
+    def wit_fallback(self):
+        """a simple relation the witness satisfies: field (<= | >= | ==) its witness value"""
+        cand = [(p, f) for p, f in self.fs if f["kind"] == "scalar"]
+        if not cand:
+            return ["expr", ["bin", "Eq", ["lit", 1], ["lit", 1]]]
+        p, f = self.rnd.choice(cand)
+        return ["expr", ["bin", self.rnd.choice(["Le", "Ge", "Eq"]), ["f", list(p)], ["lit", self.wit_of(f)]]]
+
     def stmt(self, depth=2, allow_soft=False):
         rnd = self.rnd
         r = rnd.random()
@@ -736,7 +921,7 @@ class Gen(object):
                     ops.append({"op": "rl_clear", "var": v2, "rl": name, "items": []})
                     if rnd.random() < 0.7:
                         ops.append({"op": "rl_extend", "var": v2, "rl": name, "items": [self.rl_item(f) for _ in range(rnd.randint(1, 2))]})
-            inline = [self.stmt(1, softs) for _ in range(rnd.randint(1, 2))] if rnd.random() < (0.75 if self.free else 0.4) else None
+            inline = [self.guided(lambda: self.stmt(1, softs), fallback=self.wit_fallback) for _ in range(rnd.randint(1, 2))] if rnd.random() < (0.75 if self.free else 0.4) else None
             call = {"op": "randomize", "var": v2, "inline": inline}
             if self.free and rnd.random() < 0.5:
                 cand = [list(p) for p, f in leaves]
@@ -773,11 +958,12 @@ class Gen(object):
     def foreach_objs(self, sc, c, lf):
         """with vsc.foreach(self.l, idx=True, it=True): relations over the element's fields, the index and the container's fields"""
         rnd = self.rnd
-        efs = [f for f in all_fields(sc, lf["cls"]) if f["kind"] == "scalar"]
+        efs = [(p, f) for p, f in leaves_of(sc, lf["cls"]) if f["kind"] == "scalar"]      # also the fields of an element's sub-objects
         own = [(p, f) for p, f in self.fs if len(p) == 1 and f["kind"] == "scalar"]
         body = []
-        for _ in range(rnd.randint(1, 2)):
-            ef = rnd.choice(efs)
+
+        def one():
+            ep, ef = rnd.choice(efs)
             r = rnd.random()
             if r < 0.4:
                 rhs = self.lit_for(ef)
@@ -786,8 +972,13 @@ class Gen(object):
             elif r < 0.8 and own:
                 rhs = ["f", list(rnd.choice(own)[0])]
             else:
-                rhs = ["itf", [rnd.choice(efs)["name"]]]
-            body.append(["expr", ["bin", rnd.choice(["Le", "Ne", "Lt", "Ge", "Eq"]), ["itf", [ef["name"]]], rhs]])
+                rhs = ["itf", list(rnd.choice(efs)[0])]
+            return ["expr", ["bin", rnd.choice(["Le", "Ne", "Lt", "Ge", "Eq"]), ["itf", list(ep)], rhs]]
+        for _ in range(rnd.randint(1, 3 if any(len(p) > 1 for p, _ in efs) else 2)):
+            def fb():
+                ep, ef = rnd.choice(efs)
+                return ["expr", ["bin", rnd.choice(["Le", "Ge", "Eq"]), ["itf", list(ep)], ["lit", self.wit_of(ef)]]]
+            body.append(self.guided(one, lambda st: all(self.wit_holds(st, i, efs) for i in range(lf["n"])), fallback=fb))
         return ["foreach", [lf["name"]], body]
 
     def rl_item(self, f):
